@@ -103,6 +103,7 @@ def _run_sym(job):
     pid, scen, label, t, gen, cfg = job
     name = f"{scen}|{label}|{json.dumps(gen, sort_keys=True)}|{json.dumps(cfg, sort_keys=True, default=str)}"
     e = Engine(name, timeout_ms=cfg.get("timeout_ms", 20000), max_decisions=cfg.get("max_decisions", 4000), max_paths=cfg.get("max_paths", 1500), max_cex=4)
+    e.count_paths_as_cases = True
     v = sample_value(t, gen)
     fn = wmode.SCENARIOS[scen]
     kind = cfg.get("kind", "BufferNumpy")
@@ -385,6 +386,11 @@ def main(pid):
             desc = f"{job[2]} [{json.dumps(job[5], default=str)} {json.dumps(job[4])}] on a real {k}: {w}"
             rep.candidate(sig, desc, REPLAY.format(job=repr(list(job)), model=repr({}), kind=k, want=norm_what(w)))
     rep.validated += nval
+    rep.extra["rule"] = (
+        "one evaluation = one proof obligation (path condition /\\ negated goal) decided by z3 or, for value comparisons, by evaluating the concrete read-back on that path; "
+        "a case = one (scenario job, feasible path) = one type x value x input form x class of placements; non-trivial = the path ran the real constructor/accessors on a symbolically placed buffer and reached its obligations; "
+        "distinct = md5 of (job, decision trail) plus md5 of every obligation whose negation still mentions a solver variable after simplification"
+    )
     rep.extra["concrete_validation_runs"] = nval
     rep.extra["scenario_jobs"] = len(jobs)
     rep.extra["slowest_jobs"] = [f"{r['job'][1]} {r['job'][2][:50]} {r['wall']:.1f}s paths={r['paths']}" for r in slow]
